@@ -349,6 +349,20 @@ def r13_continue(f):
 def subst(f, pairs, rule):
     """anchored substitution (R12 and friends): each `before` token sequence must occur exactly `count` times"""
     for p in pairs:
+        if "from" in p:
+            # range form: everything from the first anchor through the second (each must occur exactly once, in this order)
+            c = f.code
+            def find(txt, start=0):
+                w = [t.text for t in tokenize(txt)]
+                return [i for i in range(start, len(c) - len(w) + 1) if [t.text for t in c[i:i + len(w)]] == w], len(w)
+            h1, n1 = find(p["from"])
+            if len(h1) != 1:
+                raise RuleError("%s: range start `%s` found %d times (expected 1)" % (rule, p["from"][:60], len(h1)))
+            h2, n2 = find(p["to"], h1[0] + n1)
+            if len(h2) != 1:
+                raise RuleError("%s: range end `%s` found %d times after the start (expected 1)" % (rule, p["to"][:60], len(h2)))
+            f.apply([(c[h1[0]].pos, c[h2[0] + n2 - 1].end, p["after"])], p.get("rule", rule))
+            continue
         want = [t.text for t in tokenize(p["before"])]
         c = f.code
         hits = []
